@@ -42,6 +42,9 @@ CONSTANTS
   MaxSec,     \* sections begun per sharer (0 = unbounded)
   Timeouts,   \* TRUE: acquisition is timed (action Timeout exists)
   Handoff,    \* TRUE: a holder may end its section while another sharer waits for one of its locks
+  Eager,      \* TRUE: a released lock always goes to a waiter if there is one (generator);
+              \* FALSE: or to nobody -- the waiters' selects may already have chosen the timer
+  Fifo,       \* TRUE: only the sharer that has been waiting longest times out (generator: one timeout value per case)
   MaxWait,    \* bound on simultaneous waiters per lock (generator only; exhaustive runs use NA)
   UniqueVals, \* TRUE: every write writes a fresh tag (a * 100 + k); FALSE: writes 0
   Ghost,      \* TRUE: maintain log/ser/bad
@@ -49,8 +52,8 @@ CONSTANTS
   EdgeFile    \* "" or the ndjson file the labelled edges go to
 
 Arch == 1..NA
-VARIABLES lk, lock, val, old, ph, want, nops, nsec, nw, log, ser, bad
-vars == <<lk, lock, val, old, ph, want, nops, nsec, nw, log, ser, bad>>
+VARIABLES lk, lock, val, old, ph, want, nops, nsec, nw, log, ser, bad, wq
+vars == <<lk, lock, val, old, ph, want, nops, nsec, nw, log, ser, bad, wq>>
 
 Cells    == DOMAIN lk
 LocksOf(f) == {f[c] : c \in DOMAIN f}
@@ -59,12 +62,15 @@ NoReq    == [k |-> "-", c |-> 0, v |-> 0]
 HeldBy(a) == {m \in Locks : lock[m] = a}
 CellsOf(ms) == {c \in Cells : lk[c] \in ms}
 Waiters(m) == {b \in Arch : ph[b] = "wait" /\ lk[want[b].c] = m}
+Without(q, a) == SelectSeq(q, LAMBDA x : x # a)
 
-Sid == ToString(<<lock, ph, want, nops>>)
+(* state identity for the exported graph (records print their fields in construction order, *)
+(* so the pending request is flattened into a tuple)                                          *)
+WSig(w) == [a \in Arch |-> <<w[a].k, w[a].c>>]
 Emit(act) ==
   IF EdgeFile = "" THEN TRUE
-  ELSE CSVWrite("%1$s", <<ToJson([from |-> ToString(<<lock, ph, want, nops>>),
-                                   to   |-> ToString(<<lock', ph', want', nops'>>),
+  ELSE CSVWrite("%1$s", <<ToJson([from |-> ToString(<<lock, ph, WSig(want), nops, wq>>),
+                                   to   |-> ToString(<<lock', ph', WSig(want'), nops', wq'>>),
                                    idle |-> (\A a \in Arch : ph'[a] = "idle"),
                                    act  |-> act])>>, EdgeFile)
 
@@ -73,7 +79,7 @@ InitWith(f, v0) ==
   /\ val = v0 /\ old = v0 /\ ser = v0
   /\ ph = [a \in Arch |-> "idle"] /\ want = [a \in Arch |-> NoReq]
   /\ nops = [a \in Arch |-> 0] /\ nsec = [a \in Arch |-> 0] /\ nw = [a \in Arch |-> 0]
-  /\ log = [a \in Arch |-> <<>>] /\ bad = FALSE
+  /\ log = [a \in Arch |-> <<>>] /\ bad = FALSE /\ wq = <<>>
 
 Init == InitWith(LockOf0, [c \in DOMAIN LockOf0 |-> 0])
 
@@ -93,7 +99,7 @@ Begin(a) ==
   /\ ph' = [ph EXCEPT ![a] = "open"] /\ nops' = [nops EXCEPT ![a] = 0]
   /\ nsec' = [nsec EXCEPT ![a] = IF MaxSec = 0 THEN 0 ELSE @ + 1]
   /\ log' = [log EXCEPT ![a] = <<>>]
-  /\ UNCHANGED <<lk, lock, val, old, want, nw, ser, bad>>
+  /\ UNCHANGED <<lk, lock, val, old, want, nw, ser, bad, wq>>
 
 (* the access itself, performed by a on cell c with the lock in hand *)
 Perform(a, k, c, v) ==
@@ -108,31 +114,45 @@ Perform(a, k, c, v) ==
 AccV(a, k, c, v) ==
   /\ ph[a] = "open" /\ nops[a] < MaxOps /\ lock[lk[c]] \in {0, a}
   /\ Perform(a, k, c, v)
-  /\ UNCHANGED <<lk, old, ph, want, nsec, ser, bad>>
+  /\ UNCHANGED <<lk, old, ph, want, nsec, ser, bad, wq>>
 
 BlockV(a, k, c, v) ==
   /\ ph[a] = "open" /\ nops[a] < MaxOps /\ lock[lk[c]] \notin {0, a}
   /\ Cardinality(Waiters(lk[c])) < MaxWait
   /\ ph' = [ph EXCEPT ![a] = "wait"] /\ want' = [want EXCEPT ![a] = [k |-> k, c |-> c, v |-> v]]
+  /\ wq' = IF Fifo THEN Append(wq, a) ELSE wq
   /\ UNCHANGED <<lk, lock, val, old, nops, nsec, nw, log, ser, bad>>
 
 Grant(a) ==
   /\ ph[a] = "wait" /\ lock[lk[want[a].c]] \in {0, a}
   /\ Perform(a, want[a].k, want[a].c, want[a].v)
   /\ ph' = [ph EXCEPT ![a] = "open"] /\ want' = [want EXCEPT ![a] = NoReq]
+  /\ wq' = Without(wq, a)
   /\ UNCHANGED <<lk, old, nsec, ser, bad>>
+
+(* release(): `<-lockCh` moves a waiting sender's token into the channel in the same step, so a *)
+(* released lock passes straight to a waiter -- unless that waiter's select has already chosen   *)
+(* its timer (it then still sits in the queue, but is skipped).                                  *)
+NewHolder(m) == IF Waiters(m) = {} THEN {0}
+                ELSE IF Eager \/ ~Timeouts THEN Waiters(m) ELSE Waiters(m) \cup {0}
+Handovers(a) == {nh \in [HeldBy(a) -> 0..NA] : \A m \in HeldBy(a) : nh[m] \in NewHolder(m)}
+Released(a, nh) == [m \in Locks |-> IF lock[m] = a THEN nh[m] ELSE lock[m]]
 
 (* Abort of every dirty handle: restore the working copy, release *)
 AbortEffect(a) ==
   /\ val' = IF Mut = "no-restore" THEN val
             ELSE [c \in Cells |-> IF lk[c] \in HeldBy(a) THEN old[c] ELSE val[c]]
-  /\ lock' = [m \in Locks |-> IF lock[m] = a THEN 0 ELSE lock[m]]
+  /\ \E nh \in Handovers(a) : lock' = Released(a, nh)
+  /\ wq' = Without(wq, a)
   /\ ph' = [ph EXCEPT ![a] = "idle"] /\ want' = [want EXCEPT ![a] = NoReq]
   /\ log' = [log EXCEPT ![a] = <<>>] /\ nops' = [nops EXCEPT ![a] = 0]
   /\ UNCHANGED <<lk, old, nsec, nw, ser, bad>>
 
+(* the select chose the timer at some moment at which another sharer held the lock; the lock *)
+(* may have been released since (to nobody), but it was not handed to a                        *)
 Timeout(a) ==
-  /\ Timeouts /\ ph[a] = "wait" /\ lock[lk[want[a].c]] \notin {0, a}
+  /\ Timeouts /\ ph[a] = "wait" /\ lock[lk[want[a].c]] # a
+  /\ (Fifo => a = Head(wq))
   /\ AbortEffect(a)
 
 MayEnd(a) == Handoff \/ \A m \in HeldBy(a) : Waiters(m) = {}
@@ -140,17 +160,18 @@ MayEnd(a) == Handoff \/ \A m \in HeldBy(a) : Waiters(m) = {}
 EndCommit(a) ==
   /\ ph[a] = "open" /\ MayEnd(a)
   /\ old' = [c \in Cells |-> IF lk[c] \in HeldBy(a) THEN val[c] ELSE old[c]]
-  /\ lock' = IF Mut = "commit-leak" /\ Cardinality(HeldBy(a)) > 1
-             THEN LET keep == CHOOSE m \in HeldBy(a) : \A m2 \in HeldBy(a) : m2 <= m IN
-                  [m \in Locks |-> IF lock[m] = a /\ m # keep THEN 0 ELSE lock[m]]
-             ELSE [m \in Locks |-> IF lock[m] = a THEN 0 ELSE lock[m]]
+  /\ \E nh \in Handovers(a) :
+       lock' = IF Mut = "commit-leak" /\ Cardinality(HeldBy(a)) > 1
+               THEN LET keep == CHOOSE m \in HeldBy(a) : \A m2 \in HeldBy(a) : m2 <= m IN
+                    [Released(a, nh) EXCEPT ![keep] = a]
+               ELSE Released(a, nh)
   /\ ph' = [ph EXCEPT ![a] = "idle"]
   /\ IF Ghost
      THEN LET r == Replay(log[a], 1, ser) IN
           /\ bad' = (bad \/ ~r.ok) /\ ser' = r.st
      ELSE UNCHANGED <<bad, ser>>
   /\ log' = [log EXCEPT ![a] = <<>>] /\ nops' = [nops EXCEPT ![a] = 0]
-  /\ UNCHANGED <<lk, val, want, nsec, nw>>
+  /\ UNCHANGED <<lk, val, want, nsec, nw, wq>>
 
 EndAbort(a) == ph[a] = "open" /\ MayEnd(a) /\ AbortEffect(a)
 
